@@ -507,6 +507,13 @@ func (p *Packer) Unpack(r io.Reader, dst string) (err error) {
 			return &IllegalSlugError{Err: err}
 		}
 
+		// PAX header records (such as the pax_global_header entry written
+		// by git archive) describe other entries and are not extracted, so
+		// nothing is created or replaced on their behalf.
+		if info.IsTypeX() {
+			continue
+		}
+
 		// Make the directories to the path.
 		dir := filepath.Dir(info.Path)
 
